@@ -228,6 +228,14 @@ class Unit:
         label = self.label_of(path, file)
         text = it.text
         mr = re.match(r'(?s)\s*pub const (\w+): Range<usize> =\s*(?:range|create_range)\((.*),\s*(.*?)\);\s*$', text) if it.kind == 'const' else None
+        mr2 = re.match(r'(?s)\s*pub const (\w+): Range<usize> =\s*Range\s*\{\s*start:\s*(.*?),\s*end:\s*(.*?),?\s*\};\s*$', text) if it.kind == 'const' else None
+        if mr2:
+            # R17: `const X: Range<usize> = Range { start: a, end: b }` -> `const X_START = a; const X_END = b;`
+            self.rewrite_counts['R17'] = self.rewrite_counts.get('R17', 0) + 1
+            a_, b_ = self.apply_rewrites(mr2.group(2).strip()), self.apply_rewrites(mr2.group(3).strip())
+            self.out.add_repo('pub const %s_START: usize = %s; pub const %s_END: usize = %s;' % (mr2.group(1), a_, mr2.group(1), b_), file, label, it.line)
+            self.items.append({'label': label, 'file': file, 'kind': it.kind, 'sha': hashlib.sha256(text.encode()).hexdigest()[:16], 'contracted': False})
+            return
         if mr:
             # R17: `const X: Range<usize> = range(a, n)` -> `const X_START = a; const X_END = a + n;`
             self.rewrite_counts['R17'] = self.rewrite_counts.get('R17', 0) + 1
